@@ -46,6 +46,11 @@ inductive RData where
   | bytes (b : Bytes)
   deriving DecidableEq, Repr, Inhabited
 
+/-- the form of an RDATA under which `RData::eq` is plain equality (see `Rec.dataEq`) -/
+def RData.norm (rtype : Nat) : RData → RData
+  | .bytes b => .bytes (if rtype = 2 ∨ rtype = 5 then b.map Name.lowerByte else b)
+  | d => d
+
 structure Rec where
   name : Name
   rtype : Nat
@@ -60,8 +65,12 @@ abbrev Key := Name × Nat
 namespace Rec
 /-- `RrKey::new(LowerName::from(&rr.name), rr.record_type())` -/
 def key (r : Rec) : Key := (r.name.toLowercase, r.rtype)
-/-- `rr.data == other.data` (derived `PartialEq` of `RData`: variant, i.e. the type, and fields) -/
-def dataEq (a b : Rec) : Bool := a.rtype == b.rtype && a.rdata == b.rdata
+/-- `rr.data == other.data` (derived `PartialEq` of `RData`: variant, i.e. the type, and fields).
+A domain name inside RDATA is a `Name`, whose `==` ignores ASCII case: the RDATA of NS and CNAME
+(one uncompressed name; a length octet ≤ 63 is never a letter) is compared lower-cased
+(`RData.norm`), every other opaque RDATA octet for octet. -/
+def dataEq (a b : Rec) : Bool :=
+  a.rtype == b.rtype && RData.norm a.rtype a.rdata == RData.norm b.rtype b.rdata
 /-- `impl PartialEq for Record`: NAME (case-insensitive), CLASS, RDATA — TTL excluded. -/
 def eqv (a b : Rec) : Bool := Name.eq a.name b.name && a.cls == b.cls && a.dataEq b
 /-- `RData::Update0(_) | RData::NULL(..)` — what the update code accepts as "empty RDATA" -/
